@@ -231,7 +231,7 @@ func parent(p *Prop, tier string, seed int64, bsec int) int {
 			defer func() { done <- i }()
 			outf := filepath.Join(scratch, fmt.Sprintf("w%d.json", i))
 			cmd := exec.Command(self, "-prop", p.ID, "-tier", tier, "-worker", "-shard", strconv.Itoa(i), "-nshards", strconv.Itoa(n), "-out", outf, "-budget", strconv.Itoa(bsec))
-			cmd.Env = append(os.Environ(), "VERIF_SEED="+strconv.FormatInt(seed, 10), "VERIF_SCRATCH="+scratch, "GOMAXPROCS="+gomaxprocs(n))
+			cmd.Env = append(os.Environ(), "VERIF_SEED="+strconv.FormatInt(seed, 10), "VERIF_SCRATCH="+scratch, "GOMAXPROCS="+gomaxprocs(p, n))
 			logf, _ := os.Create(filepath.Join(scratch, fmt.Sprintf("w%d.log", i)))
 			cmd.Stdout = logf
 			cmd.Stderr = logf
@@ -422,7 +422,10 @@ func parent(p *Prop, tier string, seed int64, bsec int) int {
 	return exit
 }
 
-func gomaxprocs(n int) string {
+func gomaxprocs(p *Prop, n int) string {
+	if p.GoMaxProcs > 0 {
+		return strconv.Itoa(p.GoMaxProcs)
+	}
 	if n >= 8 {
 		return "2"
 	}
